@@ -223,6 +223,11 @@ def run(ctx, chk):
     except Anchor as ex:
         chk.bad(R4, "version-functions-inverse", "not analysable: %s" % ex, raw.where("create_word_from_version", None, "version.rs"))
     from . import headerx
+    try:
+        ipb = headerx.instruction_new_problem(ctx)
+    except Anchor as ex:
+        ipb = "not analysable: %s" % ex
+    chk.check(R0, ipb is None, "Instruction::new", "Instruction::new(opcode, result type, result id, operands) %s" % ipb, raw.where("new", "Instruction", "constructs.rs"))
     nv = headerx.report(chk, R4, raw, headerx.header_api_problems(ctx), only=["set_version", "::version"], keyp="C06")
     chk.floor(R4, "version API cases", nv, 6)
     chk.analysed.update({"builder_methods": len(ms), "emitting": len(em), "loader_evaluations": len(cache)})
